@@ -489,11 +489,18 @@ func (c *Ctx) healthSpec() *Spec {
 			return ""
 		},
 		Expand: func(callee *ssa.Function, site ssa.CallInstruction) bool {
-			switch callee.Name() {
-			case "handleHealthCheckFailure", "processHealthCheckResponse", "recordRequestMetrics", "handlePassiveHealthCheck":
-				return true
+			pk := fnPkg(callee)
+			if pk == nil || !strings.HasSuffix(pk.Pkg.Path(), "/internal/loadbalancer") {
+				return false
 			}
-			return false
+			switch callee.Name() {
+			// the operations the rules observe as events stay opaque; every other helper of the
+			// package is looked into, so extracting a helper does not hide what it does
+			case "MarkBackendUnhealthy", "IsBackendHealthy", "performHealthCheck", "NextBackend", "proxyRequest", "findHealthyBackend",
+				"handleRequest", "ServeHTTP", "healthy", "GetActiveConnections", "IncrementConnections", "DecrementConnections", "GetBackends":
+				return false
+			}
+			return true
 		},
 	}
 }
@@ -1065,6 +1072,52 @@ func loopHeader(b *ssa.BasicBlock) *ssa.BasicBlock {
 		}
 	}
 	return nil
+}
+
+// enclosingLoops returns the headers of all natural loops that contain b, outermost first.
+func enclosingLoops(b *ssa.BasicBlock) []*ssa.BasicBlock {
+	var out []*ssa.BasicBlock
+	for _, h := range b.Parent().Blocks {
+		if !h.Dominates(b) {
+			continue
+		}
+		for _, pr := range h.Preds {
+			if h.Dominates(pr) && reaches(b, pr, map[*ssa.BasicBlock]bool{}) {
+				out = append(out, h)
+				break
+			}
+		}
+	}
+	return out
+}
+
+// loopEarlyExits returns the blocks of the natural loop headed by h, other than h itself, that have a
+// successor outside the loop (break, return, panic, goto): the loop can end before its header says so.
+func loopEarlyExits(h *ssa.BasicBlock) []*ssa.BasicBlock {
+	in := map[*ssa.BasicBlock]bool{h: true}
+	for _, b := range h.Parent().Blocks {
+		if !h.Dominates(b) {
+			continue
+		}
+		for _, pr := range h.Preds {
+			if h.Dominates(pr) && reaches(b, pr, map[*ssa.BasicBlock]bool{h: true}) {
+				in[b] = true
+			}
+		}
+	}
+	var out []*ssa.BasicBlock
+	for _, b := range h.Parent().Blocks {
+		if !in[b] || b == h {
+			continue
+		}
+		for _, s := range b.Succs {
+			if !in[s] {
+				out = append(out, b)
+				break
+			}
+		}
+	}
+	return out
 }
 
 func reaches(from, to *ssa.BasicBlock, seen map[*ssa.BasicBlock]bool) bool {
